@@ -20,8 +20,7 @@ func ConvOneOf(f []Format, val interface{}) (Value, Format, error) {
 	return nil, 0, fmt.Errorf("could not convert %v to any of the allowed types", val)
 }
 
-func Conv(f Format, val interface{}) (Value, error) {
-	var err error
+func Conv(f Format, val interface{}) (v Value, err error) {
 	defer func() {
 		if r := recover(); r != nil {
 			err = fmt.Errorf("could not convert %v to type  %s", val, f)
